@@ -6,7 +6,9 @@
 EXTENDS JetProg
 
 Files == <<"leaf", "mid", "root", "i1", "i2", "i3">>
-Def(file, b) == BlockS(file \o b \o "d", b, <<>>, NoE, <<T(file \o ":" \o b)>>)
+\* every definition declares a parameter with a default of its own: whichever definition is rendered, at a yield
+\* or at a definition site, brings its own defaults
+Def(file, b) == BlockS(file \o b \o "d", b, <<Par("q1", Lit(file \o b \o "dflt"))>>, NoE, <<T(file \o ":" \o b), P(file \o b \o "q", Var("q1"))>>)
 
 \* par = <<"tree", chain, nimp, mask1 (files defining b1), mask2 (files defining b2), site>>
 MkTree(par) ==
@@ -16,7 +18,7 @@ MkTree(par) ==
       \* the body that is actually rendered (root of the chain): text, a yield, a definition site, a yield in a range
       layout(f) == <<T(f \o ":top")>> \o
                    (CASE site = "yield"   -> <<YieldS("y1", "b1", <<>>, NoE)>>
-                      [] site = "defsite" -> <<BlockS(f \o "b1site", "b1", <<>>, NoE, <<T(f \o ":b1site")>>)>>
+                      [] site = "defsite" -> <<BlockS(f \o "b1site", "b1", <<Par("q1", Lit(f \o "sitedflt"))>>, NoE, <<T(f \o ":b1site"), P(f \o "siteq", Var("q1"))>>)>>
                       [] site = "inrange" -> <<RangeS("rg", "none", "", "", "", ListE("slice", <<"e1", "e2">>), <<YieldS("y1", "b1", <<>>, NoE)>>)>>
                       [] site = "inblock" -> <<BlockS(f \o "wrapd", "wrap", <<>>, NoE, <<T("w("), YieldS("y1", "b1", <<>>, NoE), T(")")>>)>>
                       [] site = "incontent" -> <<YieldC("yw", "b2", <<>>, NoE, <<YieldS("y1", "b1", <<>>, NoE)>>)>>
